@@ -40,7 +40,7 @@ SHAPES = {
     "diff-size-older": {"src": {"files": {"c.txt": F("AAAAAA", -100)}, "doc": None}, "dst": {"files": {"c.txt": F("BB", 0)}, "doc": None}},
     "diff-size-equal": {"src": {"files": {"c.txt": F("AAAAAA", 0)}, "doc": None}, "dst": {"files": {"c.txt": F("BB", 0)}, "doc": None}},
     "diff-size-newer": {"src": {"files": {"c.txt": F("AAAAAA", 100)}, "doc": None}, "dst": {"files": {"c.txt": F("BB", 0)}, "doc": None}},
-    "diff-nested-newer": {"src": {"files": {"sub/c.txt": F("AAAAAA", 100), "sub/only.txt": F("SO")}, "doc": None},
+    "diff-nested-newer": {"src": {"files": {"sub/c.txt": F("AAAAAA", 100), "sub/only.txt": F("SO"), "sub/skip.y": F("SY")}, "doc": None},
                           "dst": {"files": {"sub/c.txt": F("BB", 0)}, "doc": None}},
     "diff-nested-samesize-equal": {"src": {"files": {"sub/c.txt": F("AAAA", 0), "sub/deeper/c.txt": F("CCCC", 0)}, "doc": None},
                                    "dst": {"files": {"sub/c.txt": F("BBBB", 0), "sub/deeper/c.txt": F("DDDD", 0)}, "doc": None}},
@@ -51,6 +51,7 @@ SHAPES = {
     "doc-overlap-equal": {"src": {"files": {}, "doc": {"a": 1, "b": 2}}, "dst": {"files": {}, "doc": {"a": 1}}},
     "doc-flat-conflict": {"src": {"files": {}, "doc": {"a": 1, "n": 5, "w": 1}}, "dst": {"files": {}, "doc": {"a": 2, "z": 0, "w": 2}}},
     "doc-nested-conflict": {"src": {"files": {}, "doc": {"n": {"x": 1, "y": 2}, "first": 1, "w": 3}}, "dst": {"files": {}, "doc": {"n": {"x": 9}}}},
+    "doc-single-key-conflict": {"src": {"files": {}, "doc": {"a": 1, "b": 2}}, "dst": {"files": {}, "doc": {"a": 2}}},
     "doc-deep-conflict": {"src": {"files": {}, "doc": {"p": {"q": {"r": 1, "s": 1}}}}, "dst": {"files": {}, "doc": {"p": {"q": {"r": 2}}}}},
     "doc-none-conflict": {"src": {"files": {}, "doc": {"a": 5, "n": {"x": 1}, "z": 1}},
                           "dst": {"files": {}, "doc": {"a": None, "n": {"x": None}, "z": None}}},
@@ -67,7 +68,7 @@ SHAPES = {
 SHAPE_NAMES = list(SHAPES)
 PDOCS = {"none": (None, None), "equal": ({"p": 1}, {"p": 1}), "disjoint": ({"p": 1}, {"q": 2}), "conflict": ({"p": 1}, {"p": 2})}
 
-STRATEGIES = ["none", "always", "never", "update", "custom"]
+STRATEGIES = ["none", "always", "never", "update", "custom", "custom-none"]
 DOCSYNCS = ["default", "bykey-fn", "bykey-regex", "update", "nosync", "copy"]
 EXCLUDE = r"skip\..*"
 
@@ -88,6 +89,9 @@ def make_strategy(name):
         return None
     if name == "custom":
         return lambda src, dst, fn: fn.endswith("c.txt") and "sub" not in fn
+    if name == "custom-none":
+        # a predicate whose "no" is None (a function falling off its end, a dict.get miss, a failed re.match)
+        return lambda src, dst, fn: True if (fn.endswith("c.txt") and "sub" not in fn) else None
     return getattr(FileSync, name)
 
 
@@ -365,7 +369,7 @@ def evaluate_case(case):
                 if st == "update":
                     k = f"workspace/{ids[i]}/{rel}"
                     return sig_s[k][1] > sig_d[k][1]
-                if st == "custom":
+                if st in ("custom", "custom-none"):
                     return rel.endswith("c.txt") and "sub" not in rel
                 return None
 
